@@ -215,6 +215,19 @@ func (r *Reporter) Inconclusive(idx int, why string) {
 	r.mu.Unlock()
 }
 
+// Abandon marks the current case as finished-by-abandonment (a goroutine is stuck inside the
+// system under test, so this process cannot go on), flushes what was observed and exits; the
+// driver restarts the shard after this case without counting a crash.
+func (r *Reporter) Abandon(idx int) {
+	r.mu.Lock()
+	r.cases++
+	r.write(rec{K: "A", I: idx})
+	r.flushLocked("P")
+	_ = r.f.Sync()
+	r.mu.Unlock()
+	os.Exit(4)
+}
+
 // Note writes a free-text note into the stream.
 func (r *Reporter) Note(msg string) {
 	r.mu.Lock()
